@@ -8,14 +8,14 @@ import dslgen
 
 FAULT_CLASSES = ["dup_packet", "dup_meta", "dup_option", "unknown_option", "bad_option_value", "dup_field", "dup_match_key",
                  "second_root", "length_outside_root", "length_twice", "unknown_packet_ref", "unknown_key", "unknown_length_target",
-                 "unknown_match_target"]
+                 "unknown_match_target", "typeless_unknown_meta"]
 
 EXPECT_MSG = {
     "dup_packet": "Duplicate packet definition", "dup_meta": "Duplicate metadata definition", "dup_option": "is already defined",
     "unknown_option": "is not allowed in this context", "bad_option_value": "is not allowed to be", "dup_field": "uplicate field",
     "dup_match_key": "Duplicate match key", "second_root": "Multiple root packets", "length_outside_root": "only be declared in the root",
     "length_twice": "Duplicate LengthOfField", "unknown_packet_ref": "Unknown packet type", "unknown_key": "nknown",
-    "unknown_length_target": "nknown", "unknown_match_target": "nknown",
+    "unknown_length_target": "nknown", "unknown_match_target": "nknown", "typeless_unknown_meta": "Unknown MetaData type",
 }
 
 
@@ -165,6 +165,18 @@ def inject(text, cls, rng):
     if cls == "unknown_packet_ref":
         a, b, n, _ = rng.choice(pk)
         L.insert(b, "    Nope%d ZzRef," % rng.randint(1, 9))
+        return "\n".join(L) + "\n", b + 1
+    if cls == "typeless_unknown_meta":
+        # a checksum (or, in a root packet without one, a length) field written without a type whose name is no MetaData entry
+        roots = [p for p in pk if p[3]]
+        if roots and not any("@lengthOf(" in l for l in L) and rng.random() < 0.5 and roots[0][1] - roots[0][0] > 1:
+            a, b, n, _ = roots[0]
+            tgt = re.match(r"\s*(?:repeat )?(?:[\w\[\]]+ )?(\w+)", L[b - 1])
+            if tgt and not L[b - 1].strip().startswith(("}", "@", "match")):
+                L.insert(b - 1, "    ZzNoType @lengthOf(%s)," % tgt.group(1))
+                return "\n".join(L) + "\n", b
+        a, b, n, _ = rng.choice(pk)
+        L.insert(b, "    ZzNoType @calculatedFrom(\"CRC32\"),")
         return "\n".join(L) + "\n", b + 1
     if cls == "unknown_key":
         if len(pk) < 2:
